@@ -254,20 +254,39 @@ fn c17_board_game(ctx: &Ctx, l: &mut Local, root: &Pos, path: &[Mv], seed: u64, 
 /// The same game through the Game API (coordinate entry + caller-side toggle): a third
 /// occurrence must be reported as a draw.
 fn c17_game_api(ctx: &Ctx, l: &mut Local, root: &Pos, path: &[Mv], tagname: &str) {
-    let mut game = Game::from_board(to_engine(root), 0);
+    // every third game lets the engine's own move entry points make some of the moves (search depth 1)
+    let engine_plays = hash_bytes(path_str(root, path).join(" ").as_bytes()) % 3 == 0;
+    let mut game = Game::from_board(to_engine(root), if engine_plays { 1 } else { 0 });
     let mut p = root.clone();
     let mut multiset: HashMap<PosKey, u32> = HashMap::new();
     multiset.insert(p.key(), 1);
     for (i, m) in path.iter().enumerate() {
         if p.halfmove >= 45 { break; } // stay clear of any move-count draw
-        if !matches!(par::guarded(|| game.apply_chess_move_by_from_to_coordinates(bb(m.from), bb(m.to))), Ok(Ok(_))) { l.inc("game_api_move_rejected_(C14_business)"); return; }
+        let mut pm = *m;
+        if engine_plays && i % 4 == 1 && p == crate::bridge::end_of(root, &path[..i]) {
+            // let the engine choose and make this move itself (both engine entry points, alternately)
+            let r = par::guarded(|| if i % 8 == 1 { game.make_alpha_beta_best_move() } else { game.make_waterfall_book_then_alpha_beta_move() });
+            let mv = match r { Ok(Ok(mv)) => mv, _ => { l.inc("engine_move_failed_(C07/C15_business)"); return; } };
+            pm = match p.legal_moves().into_iter().find(|x| rkey(x) == ekey(&mv)) { Some(x) => x, None => { l.inc("engine_move_not_legal_(C07_business)"); return; } };
+            l.inc("moves_made_by_the_engine_entry_points");
+        } else {
+            if !p.legal_moves().iter().any(|x| x == m) { break; } // the engine left the scripted path earlier
+            if !matches!(par::guarded(|| game.apply_chess_move_by_from_to_coordinates(bb(m.from), bb(m.to))), Ok(Ok(_))) { l.inc("game_api_move_rejected_(C14_business)"); return; }
+            // coordinate entry promotes to a queen
+            pm = match m.kind { Kind::Promo(_) => Mv { kind: Kind::Promo(Pc::Q), ..*m }, Kind::PromoCapture(_) => Mv { kind: Kind::PromoCapture(Pc::Q), ..*m }, _ => *m };
+            if pm != *m { break; }
+        }
         game.board_mut().toggle_turn();
-        // coordinate entry promotes to a queen
-        let pm = match m.kind { Kind::Promo(_) => Mv { kind: Kind::Promo(Pc::Q), ..*m }, Kind::PromoCapture(_) => Mv { kind: Kind::PromoCapture(Pc::Q), ..*m }, _ => *m };
-        if pm != *m { break; }
         p = p.make(&pm);
         let e = multiset.entry(p.key()).or_insert(0); *e += 1;
         let n = *e;
+        // the game registers every arising position: its reported count must be the true multiplicity
+        l.inc("game_api_counts_compared");
+        let reported = game.board().max_seen_position_count() as u64;
+        if reported != n as u64 {
+            ctx.violation(if reported > n as u64 { "c17:game-api-overcounts" } else { "c17:game-api-undercounts" }, &format!("{}: after {} plies through the Game API the position {} has occurred {} time(s) but the game's count reads {}", tagname, i + 1, p.to_fen(), n, reported), json!({"root_fen": root.to_fen(), "path": path_str(root, &path[..=i]), "occurrences": n, "reported": reported}));
+            return;
+        }
         if p.legal_moves().is_empty() { break; }
         let over = par::guarded(|| game.check_game_over_for_current_turn());
         l.inc("game_api_verdicts_compared");
@@ -308,13 +327,16 @@ pub fn c17(o: &Opts) -> i32 {
         ("r3k2r/8/8/8/8/8/8/R3K2R w KQkq - 0 1", vec!["h1g1", "h8g8", "g1h1", "g8h8", "h1g1", "h8g8", "g1h1", "g8h8"], "rook out and back: same placement, castling rights lost"),
         ("4k3/8/8/8/1p6/8/P7/4K3 w - - 0 1", vec!["a2a4", "e8d8", "e1d1", "d8e8", "d1e1"], "double step: same placement with and without the en-passant opportunity"),
         ("4k3/8/8/8/8/8/8/4K2R w K - 0 1", vec!["e1e2", "e8e7", "e2e1", "e7e8", "e1e2", "e8e7", "e2e1", "e7e8"], "king out and back: same placement, right lost at the first step"),
+        (start, vec!["e2e3", "e7e6", "g1f3", "g8f6", "f3g1", "f6g8", "g1f3", "g8f6", "f3g1", "f6g8"], "recurring position that arose from a pawn move"),
+        ("4k3/8/8/3p4/4P3/8/8/4K1N1 w - - 0 1", vec!["e4d5", "e8d8", "g1f3", "d8e8", "f3g1", "e8d8", "g1f3", "d8e8", "f3g1", "e8d8"], "recurring position that arose right after a capture"),
+        ("7k/8/8/8/8/8/8/KR6 w - - 0 1", vec!["b1b2", "h8g8", "b2b3", "g8h8", "b3b1", "h8g8", "b1b2", "g8h8", "b2b3", "h8g8", "b3b1"], "rook triangulation against a two-square king shuffle"),
     ];
     for (fen, ms, t) in &scripts { let (root, path) = scripted(fen, ms); units.push((root.clone(), path.clone(), 7, t.to_string(), false)); units.push((root, path, 7, t.to_string(), true)); }
     if let Some(path) = &o.replay {
         let case = case_from_replay(&load_replay(path));
         units = vec![(case.root.clone(), case.path.clone(), 1, "replay".into(), false), (case.root, case.path, 1, "replay".into(), true)];
     } else {
-        for i in 0..if q { 60 } else { 800 } {
+        for i in 0..if q { 1500 } else { 12000 } {
             let root = if i % 5 == 0 { Pos::start() } else { gen::random_ending(&mut r) };
             let n_plies = 60 + r.below(100);
             let path = gen::random_game(&root, &mut r, Policy::Shuffle, n_plies);
